@@ -164,7 +164,7 @@ Proof.
   - pose proof (find_none _ _ F a Ha) as X. cbn in X. rewrite Z.eqb_refl in X. discriminate.
 Qed.
 
-Definition returned_iso (C1 C2 : cut) (m1 g1 m2 g2 h1 h2 : graph) (ms1 ms2 : list (Z * Z)) : Prop :=
+Definition returned_iso_gen (P : pystr -> Prop) (C1 C2 : cut) (m1 g1 m2 g2 h1 h2 : graph) (ms1 ms2 : list (Z * Z)) : Prop :=
   let F := fun k => map_get ms2 (iso C1 C2 m1 g1 m2 g2 (inv_key g1 ms1 k)) in
   let F' := fun k => map_get ms1 (iso C2 C1 m2 g2 m1 g1 (inv_key g2 ms2 k)) in
   (forall k, In k (node_keys h1) -> In (F k) (node_keys h2) /\ F' (F k) = k) /\
@@ -172,16 +172,17 @@ Definition returned_iso (C1 C2 : cut) (m1 g1 m2 g2 h1 h2 : graph) (ms1 ms2 : lis
   (forall a, has_node g1 a = true -> F (map_get ms1 a) = map_get ms2 (iso C1 C2 m1 g1 m2 g2 a)) /\
   (forall k l, In k (node_keys h1) -> In l (node_keys h1) ->
      has_edge h2 (F k) (F l) = has_edge h1 k l /\ edge_get h2 (F k) (F l) (S "order") = edge_get h1 k l (S "order")) /\
-  (forall x key v, In x (flat C1) -> aget key (payload C1 x) = Some v -> ~ In key reserved -> key <> S "hcount" -> key <> S "ez_isomer_atoms" ->
+  (forall x key v, In x (flat C1) -> aget key (payload C1 x) = Some v -> ~ In key reserved -> key <> S "hcount" -> key <> S "ez_isomer_atoms" -> P key ->
      node_get h1 (map_get ms1 (phi C1 x)) key = Some v /\ node_get h2 (F (map_get ms1 (phi C1 x))) key = Some v) /\
-  (forall x j key, In x (flat C1) -> In j (hyds m1 g1 (phi C1 x)) -> ~ In key rebuild_copy_attrs_default -> key <> S "ez_isomer_atoms" ->
+  (forall x j key, In x (flat C1) -> In j (hyds m1 g1 (phi C1 x)) -> ~ In key rebuild_copy_attrs_default -> key <> S "ez_isomer_atoms" -> P key ->
      node_get h2 (F (map_get ms1 j)) key = node_get h1 (map_get ms1 j) key).
+Definition returned_iso := returned_iso_gen (fun _ => True).
 
 Theorem sorted_iso C1 C2 m1 g1 m2 g2 h1 h2 ms1 ms2 : wf_cut C1 -> pperm C1 C2 -> completion C1 m1 g1 -> completion C2 m2 g2 ->
   sort_nodes_by_attr g1 = Ok h1 -> sort_nodes_by_attr g2 = Ok h2 -> sort_mapping g1 = Ok ms1 -> sort_mapping g2 = Ok ms2 ->
   returned_iso C1 C2 m1 g1 m2 g2 h1 h2 ms1 ms2.
 Proof.
-  intros W1 PP K1 K2 S1 S2 M1 M2. unfold returned_iso.
+  intros W1 PP K1 K2 S1 S2 M1 M2. unfold returned_iso, returned_iso_gen.
   destruct (completed_iso C1 C2 m1 g1 m2 g2 W1 PP K1 K2) as (I1 & I2 & Ih & Ihy & Ie & Iah & Iahy). cbn zeta in *.
   destruct (SortGraphProofs.sort_graph g1 h1 (cp_wf _ _ _ K1) (cp_fragid _ _ _ K1) S1) as (m' & Em' & Inj1 & _ & Kh1 & E1 & A1). rewrite M1 in Em'. inversion Em'; subst m'.
   destruct (SortGraphProofs.sort_graph g2 h2 (cp_wf _ _ _ K2) (cp_fragid _ _ _ K2) S2) as (m'' & Em'' & Inj2 & _ & Kh2 & E2 & A2). rewrite M2 in Em''. inversion Em''; subst m''.
@@ -200,10 +201,31 @@ Proof.
   - intros k l Hk Hl. rewrite Kh1 in Hk, Hl. apply in_map_iff in Hk as (a & <- & Ha). apply in_map_iff in Hl as (b & <- & Hb).
     rewrite (IK1 a Inj1 Ha), (IK1 b Inj1 Hb), (E2 _ _ (N1 a Ha) (N1 b Hb)), (E1 a b Ha Hb), (O2 _ _ (N1 a Ha) (N1 b Hb)), (O1 a b Ha Hb).
     apply Ie; now apply gfind_has.
-  - intros x key v Fx Hv Hr Hh He.
+  - intros x key v Fx Hv Hr Hh He _.
     assert (In (phi C1 x) (node_keys g1)) as Ha by (apply gfind_has; apply (cp_keys _ _ _ K1); left; eauto).
     rewrite (IK1 _ Inj1 Ha), (A1 _ _ Ha He), (A2 _ _ (N1 _ Ha) He). now apply Iah.
-  - intros x j key Fx Hin Hk He.
+  - intros x j key Fx Hin Hk He _.
     assert (In j (node_keys g1)) as Ha by (apply gfind_has; apply (cp_keys _ _ _ K1); right; eauto).
     rewrite (IK1 _ Inj1 Ha), (A1 _ _ Ha He), (A2 _ _ (N1 _ Ha) He). now apply (Iahy x).
+Qed.
+
+(** the same statement for graphs with the same shape (keys, adjacency lists, edge dicts) that agree with the sorted graphs
+    on the attributes [P] admits: what the steps after the sort (E/Z annotation, atom names) leave untouched *)
+Lemma returned_iso_transfer (P : pystr -> Prop) C1 C2 m1 g1 m2 g2 h1 h2 r1 r2 ms1 ms2 :
+  returned_iso C1 C2 m1 g1 m2 g2 h1 h2 ms1 ms2 ->
+  node_keys r1 = node_keys h1 -> node_keys r2 = node_keys h2 ->
+  (forall a b, has_edge r1 a b = has_edge h1 a b /\ edge_get r1 a b (S "order") = edge_get h1 a b (S "order")) ->
+  (forall a b, has_edge r2 a b = has_edge h2 a b /\ edge_get r2 a b (S "order") = edge_get h2 a b (S "order")) ->
+  (forall k key, P key -> node_get r1 k key = node_get h1 k key) -> (forall k key, P key -> node_get r2 k key = node_get h2 k key) ->
+  returned_iso_gen P C1 C2 m1 g1 m2 g2 r1 r2 ms1 ms2.
+Proof.
+  unfold returned_iso, returned_iso_gen. intros (A1 & A2 & A3 & A4 & A5 & A6) K1 K2 E1 E2 N1 N2.
+  split; [|split; [|split; [|split; [|split]]]].
+  - intros k Hk. rewrite K1 in Hk. rewrite K2. now apply A1.
+  - intros k Hk. rewrite K2 in Hk. rewrite K1. now apply A2.
+  - exact A3.
+  - intros k l Hk Hl. rewrite K1 in Hk, Hl. destruct (E1 k l) as [-> ->]. destruct (E2 (map_get ms2 (iso C1 C2 m1 g1 m2 g2 (inv_key g1 ms1 k))) (map_get ms2 (iso C1 C2 m1 g1 m2 g2 (inv_key g1 ms1 l)))) as [-> ->].
+    now apply A4.
+  - intros x key v Fx Hv Hr Hh He HP. rewrite (N1 _ _ HP), (N2 _ _ HP). now apply A5.
+  - intros x j key Fx Hin Hk He HP. rewrite (N1 _ _ HP), (N2 _ _ HP). now apply (A6 x).
 Qed.
